@@ -89,3 +89,15 @@ func init() {
 		},
 	})
 }
+
+func init() {
+	register(&PropSpec{
+		ID:        "dbgpar",
+		Technique: "debug",
+		Quick: func() []eng.Instance {
+			return []eng.Instance{
+				{Name: "dbgpar/Load||Delete;Store", Pkg: "xsync", Func: "VxH_Map_par12", Args: []int64{0, 7, 1, 1, 1, 1, 1}, Cfg: eng.Config{DefaultUnwind: 2, Rounds: 2}},
+			}
+		},
+	})
+}
